@@ -346,7 +346,13 @@ pub fn run_c13(tape: &[u8], cx: &Cx) -> Outcome {
     let any_bad = view.values().map(state_facts).any(|f| f.conflict || f.incomplete);
     o.nontrivial = labels.len() >= 2 && (any_bad || view.values().any(|v| v.trans.len() >= 2 && v.default.is_none()));
     if extra.is_empty() {
-        let res = match spec.build() {
+        // half of the single builds use a state type with a lawful but colliding hash
+        let weak = t.flag();
+        if weak {
+            o.tag("state-type-with-colliding-hash");
+        }
+        let built = if weak { spec.build_with(|l| crate::spec::WeakLabel(l, format!("state {}", l))) } else { spec.build() };
+        let res = match built {
             Ok(r) => r,
             Err(msg) => {
                 o.fail("C13/build-panics", format!("build panicked: {}", msg));
@@ -997,19 +1003,124 @@ fn twin_case(kind: usize, alpha: i64, beta: i64) -> Option<Outcome> {
     Some(o)
 }
 
+/// Scale cases for pruning and the views: a chain of n states (state i goes to i+1 on 'a', everything
+/// else to a sink), the last one accepting, plus `extra` unreachable states (a cycle with its own
+/// accepting state). Depth-first / breadth-first / recursive traversals differ only on such shapes.
+fn chain_case(n: usize, extra: usize, with_views: bool) -> Outcome {
+    use aws_smt_strings::automata::AutomatonBuilder;
+    use aws_smt_strings::character_sets::CharSet;
+    use aws_smt_strings::smt_strings::SmtString;
+    let mut o = Outcome::default();
+    let what = format!("chain of {} states + sink + {} unreachable states", n, extra);
+    let res = catch(|| {
+        let mut fails: Vec<(String, String)> = Vec::new();
+        let sink = n as u32;
+        let mut b: AutomatonBuilder<u32> = AutomatonBuilder::new(&0);
+        for i in 0..n as u32 {
+            if i + 1 < n as u32 {
+                b.add_transition(&i, &CharSet::singleton(0x61), &(i + 1));
+            }
+            b.set_default_successor(&i, &sink);
+        }
+        b.set_default_successor(&sink, &sink);
+        b.mark_final(&(n as u32 - 1));
+        // unreachable cycle u_0 -> u_1 -> ... -> u_0, pointing into the chain as well
+        let u0 = n as u32 + 1;
+        for k in 0..extra as u32 {
+            let me = u0 + k;
+            let next = u0 + (k + 1) % extra as u32;
+            b.add_transition(&me, &CharSet::singleton(0x62), &next);
+            b.set_default_successor(&me, &(k % n as u32));
+        }
+        if extra > 0 {
+            b.mark_final(&u0);
+        }
+        let mut a = match b.build() {
+            Ok(a) => a,
+            Err(e) => {
+                fails.push(("C14/good-spec-rejected".into(), format!("{}: build failed: {:?}", what, e)));
+                return fails;
+            }
+        };
+        let word = |k: usize| SmtString::from(&vec![0x61u32; k][..]);
+        let lang_ok = |a: &Automaton| -> Option<String> {
+            let mut probes = vec![(n - 1, true), (n, false), (0, n == 1)];
+            if n >= 2 {
+                probes.push((n - 2, false));
+            }
+            for (w, exp) in probes.into_iter().map(|(k, e)| (word(k), e)) {
+                if a.accepts(&w) != exp {
+                    return Some(format!("accepts(a^{}) = {}, expected {}", w.len(), !exp, exp));
+                }
+            }
+            None
+        };
+        if let Some(m) = lang_ok(&a) {
+            fails.push(("C14/source-automaton-wrong".into(), format!("{} (as built): {}", what, m)));
+            return fails;
+        }
+        a.remove_unreachable_states();
+        if a.num_states() != n + 1 {
+            let class = if a.num_states() < n + 1 { "C14/reachable-state-removed" } else { "C14/unreachable-state-kept" };
+            fails.push((class.into(), format!("{}: remove_unreachable_states leaves {} states, {} are reachable", what, a.num_states(), n + 1)));
+        }
+        if let Some(m) = lang_ok(&a) {
+            fails.push(("C14/pruning-changes-language".into(), format!("{} (after remove_unreachable_states): {}", what, m)));
+        }
+        let nf = a.states().filter(|s| s.is_final()).count();
+        if a.num_final_states() != nf || nf != 1 || a.final_states().count() != 1 {
+            fails.push(("C14/counts-inconsistent".into(), format!("{}: after pruning num_final_states = {}, {} states are final, final_states() yields {}", what, a.num_final_states(), nf, a.final_states().count())));
+        }
+        if with_views && fails.is_empty() {
+            let mut oo = Outcome::default();
+            check_views(&what, &a, &[0x61, 0x62, 0x63, 0, MAX], &mut oo);
+            for f in oo.fails {
+                fails.push((f.class, f.msg));
+            }
+        }
+        fails
+    });
+    match res {
+        Ok(fails) => {
+            for (c, m) in fails.into_iter().take(2) {
+                o.fail(&c, m);
+            }
+        }
+        Err(msg) => o.fail("C14/panics", format!("{}: {}", what, msg)),
+    }
+    o.evals += 10;
+    o
+}
+
+pub fn enumerate_c14(_thorough: bool, part: usize, parts: usize, sink: &mut crate::runner::EnumSink) {
+    // (chain length, unreachable states, also check the views); the views are quadratic in the harness
+    let cases: [(usize, usize, bool); 7] = [(1, 0, true), (2, 3, true), (40, 7, true), (700, 300, true), (70_000, 66_000, false), (400_000, 5, false), (1_000_000, 5, false)];
+    for (k, &(n, extra, views)) in cases.iter().enumerate() {
+        if k % parts != part {
+            continue;
+        }
+        let o = crate::runner::on_user_stack(|| chain_case(n, extra, views));
+        sink.case(&o, true, || format!("scale case: chain of {} states, {} unreachable", n, extra));
+    }
+    if part == 0 {
+        sink.stats.exhaustive_spaces.push("7 scale cases (run on an 8 MiB stack): chains of 1 / 2 / 40 / 700 / 70 000 / 400 000 / 1 000 000 states with a sink and 0 - 66 000 unreachable states (a cycle pointing into the chain): built, pruned, counts and language on fixed words; all views on the four small ones".to_string());
+        sink.stats.samples.push("[enum] scale case: chain of 1000000 states + sink + 5 unreachable states".to_string());
+    }
+}
+
 pub fn enumerate_c04(_thorough: bool, part: usize, parts: usize, sink: &mut crate::runner::EnumSink) {
     for (k, &m) in [400usize, 66000].iter().enumerate() {
         if (k + 2) % parts != part {
             continue;
         }
-        let o = top_classes_case(m);
+        let o = crate::runner::on_user_stack(|| top_classes_case(m));
         sink.case(&o, true, || format!("scale case: two states that differ only on the last 300 of {} labelled characters", m));
     }
     for (k, &n) in [3usize, 300, 66000].iter().enumerate() {
         if (k + 1) % parts != part {
             continue;
         }
-        let o = sinks_case(n);
+        let o = crate::runner::on_user_stack(|| sinks_case(n));
         sink.case(&o, true, || format!("scale case: {} equivalent sinks, accepting state with the largest id", n));
     }
     // (states, labelled characters): small, beyond 2^8 in either dimension, beyond 2^16 labelled characters
@@ -1018,7 +1129,7 @@ pub fn enumerate_c04(_thorough: bool, part: usize, parts: usize, sink: &mut crat
         if k % parts != part {
             continue;
         }
-        let o = counter_case(n, m);
+        let o = crate::runner::on_user_stack(|| counter_case(n, m));
         sink.case(&o, true, || format!("scale case: counter automaton modulo {} with {} labelled characters, every state duplicated", n, m));
     }
     // near-twin family
@@ -1032,7 +1143,7 @@ pub fn enumerate_c04(_thorough: bool, part: usize, parts: usize, sink: &mut crat
                     if idx % parts != part {
                         continue;
                     }
-                    if let Some(o) = twin_case(kind, alpha, beta) {
+                    if let Some(o) = crate::runner::on_user_stack(|| twin_case(kind, alpha, beta)) {
                         n_twin += 1;
                         sink.case(&o, true, || format!("near-twin family kind {} perturbation ({:+},{:+})", kind, alpha, beta));
                         if sink.failed() {
